@@ -313,6 +313,11 @@ type env struct {
 	// small: the same service on a mux with a 2 KiB receive limit (requests
 	// whose body as a whole exceeds it while every message fits)
 	small *larking.Mux
+	// ref / refSmall: the same services on muxes that are NEVER handed to
+	// NewServer: the bare reference. (bare and small are mounted over and
+	// over; whatever a server construction leaves behind on its mux would
+	// otherwise be in the reference as well.)
+	ref, refSmall *larking.Mux
 }
 
 func newEnv() (*env, error) {
@@ -325,7 +330,13 @@ func newEnv() (*env, error) {
 	if e.bare, err = std.NewMux(impl{&e.calls}); err != nil {
 		return nil, err
 	}
-	e.small, err = std.NewMux(impl{&e.calls}, larking.MaxReceiveMessageSizeOption(2048))
+	if e.small, err = std.NewMux(impl{&e.calls}, larking.MaxReceiveMessageSizeOption(2048)); err != nil {
+		return nil, err
+	}
+	if e.ref, err = std.NewMux(impl{&e.calls}); err != nil {
+		return nil, err
+	}
+	e.refSmall, err = std.NewMux(impl{&e.calls}, larking.MaxReceiveMessageSizeOption(2048))
 	return e, err
 }
 
@@ -355,9 +366,9 @@ func exec(r *mon.Run, e *env, c *Case) {
 	}
 	var hs *http.Server
 	var err error
-	bareMux := e.bare
+	bareMux, refMux := e.bare, e.ref
 	if c.Small {
-		bareMux = e.small
+		bareMux, refMux = e.small, e.refSmall
 	}
 	if pi := mon.Catch(func() { hs, err = larking.NewServer(bareMux, opts...) }); pi != nil {
 		r.Violate(pi.Key(), "NewServer panicked for patterns "+fmt.Sprint(c.Patterns), c)
@@ -445,7 +456,7 @@ func exec(r *mon.Run, e *env, c *Case) {
 		r.Distinct(fmt.Sprintf("outside/%s/%d", c.Req.Kind, got.Code))
 		return
 	}
-	want := wire.Serve(bareMux, c.Req.build(strings.TrimPrefix(c.URLPath, pre)))
+	want := wire.Serve(refMux, c.Req.build(strings.TrimPrefix(c.URLPath, pre)))
 	r.Count("request_pairs", 1)
 	if d := viewOf(got).diff(viewOf(want)); d != "" {
 		r.Violate("mounted-differs-from-bare:"+c.Req.Kind+":"+strings.Fields(d)[0], fmt.Sprintf("%s %s under %q vs bare %s: %s", c.Req.Verb, c.URLPath, pre, strings.TrimPrefix(c.URLPath, pre), d), c)
@@ -763,7 +774,7 @@ func socketLane(r *mon.Run, e *env) {
 		return
 	}
 	defer bare.Close()
-	plain, err := wire.StartH2C(e.bare, nil)
+	plain, err := wire.StartH2C(e.ref, nil)
 	if err != nil {
 		r.Inconclusive("listener: " + err.Error())
 		plain = nil
